@@ -22,6 +22,10 @@ Inductive iop := IAlso (ts : list ttree) | IDirectly (ts : list ttree) | INoLong
 
 Definition obs := option (list node).
 
+(* the result of an operation, judged as a declaration: is it a Declaration object, list(R),
+   [x in R] over the nodes, list(R.flattened()) *)
+Definition res_obs := (bool * obs * option (list bool) * obs)%type.
+
 Record case_t := mkCase {
   c_g : graph;
   c_ifs : list node;
@@ -34,6 +38,7 @@ Record case_t := mkCase {
   c_sub : list (list obs);                     (* row a, column b : list(A - B) *)
   c_add : list (list obs);
   c_radd : list (node * obs);                  (* per operand: x, list(x + A) *)
+  c_bare : list (node * res_obs * res_obs * res_obs);   (* per operand A and BARE interface x: A + x, A - x, x + A *)
   c_unchanged : bool;                          (* operand snapshots equal before / after *)
   c_bases_ok : bool;                           (* class spec __bases__ = declared + inherited *)
   c_cdecl : list (node * list ttree);          (* classes without base classes: what was passed to implementer / classImplements *)
@@ -119,6 +124,11 @@ Fixpoint all2 {A B} (f : A -> B -> bool) (l1 : list A) (l2 : list B) : bool :=
   | _, _ => false
   end.
 
+Definition res_model_ok (g : graph) (ifs : list node) (r : res_obs) (d : decl) : bool :=
+  let '(isd, it, ct, fl) := r in
+  isd && obs_eqb it (iter g ifs d) && obsb_eqb ct (map (contains g ifs d) (map fst g))
+  && obs_eqb fl (flattened g ifs d).
+
 Definition check_model (c : case_t) : bool :=
   let m := model_out c in
   all2 obs_eqb (c_iter c) (m_iter m)
@@ -128,6 +138,11 @@ Definition check_model (c : case_t) : bool :=
   && all2 (all2 obs_eqb) (c_sub c) (m_sub m)
   && all2 (all2 obs_eqb) (c_add c) (m_add m)
   && all2 (fun '(_, o) l => obs_eqb o l) (c_radd c) (m_radd m)
+  && all2 (fun '(x, ra, rs, rr) o =>
+             let g := c_g c in let ifs := c_ifs c in let d := operand_decl g ifs o in
+             res_model_ok g ifs ra (add g ifs d [x]) && res_model_ok g ifs rs (sub g ifs d [x])
+             && res_model_ok g ifs rr (radd g ifs x d))
+          (c_bare c) (c_decls c)
   && all2 (fun '(d, r, p) '(d', r', p') => obs_eqb d d' && Bool.eqb r r' && obs_eqb p p')
           (c_inst c) (m_insts m)
   && obsb_eqb (c_ptwin c) (m_ptwin m).
@@ -260,6 +275,12 @@ End S.
 Definition is_some_true {A} (f : A -> bool) (o : option A) : bool :=
   match o with Some x => f x | None => false end.
 
+(* a result that must be the declaration of exactly the interfaces [e], in that order *)
+Definition res_spec_ok (g : graph) (ifs : list node) (r : res_obs) (e : list node) : bool :=
+  let '(isd, it, ct, fl) := r in
+  isd && obs_eqb it e && obsb_eqb ct (map (fun x => memb x e) (map fst g))
+  && is_some_true (fun f => sp_flat_ok g ifs e f && lnat_eqb f (filter (ifaceb ifs) (decl_sro g e))) fl.
+
 Definition check_spec (c : case_t) : bool :=
   let g := c_g c in let ifs := c_ifs c in
   let its := map (sp_iter g ifs) (c_decls c) in
@@ -277,6 +298,13 @@ Definition check_spec (c : case_t) : bool :=
   && all2 (fun row a => all2 (fun o b => obs_eqb o (sp_sub g a b)) row its) (c_sub c) its
   && all2 (fun row a => all2 (fun o b => obs_eqb o (sp_add g a b) || obs_eqb o (sp_add_worded g a b)) row its) (c_add c) its
   && all2 (fun '(x, o) a => is_some_true (fun r => nodupb r && same_set r (x :: a)) o) (c_radd c) its
+  (* a bare interface is a legal operand: the results are declarations of the expected interfaces *)
+  && all2 (fun '(x, ra, rs, rr) a =>
+             (res_spec_ok g ifs ra (sp_add g a [x]) || res_spec_ok g ifs ra (sp_add_worded g a [x]))
+             && res_spec_ok g ifs rs (sp_sub g a [x])
+             && let '(isd, it, _, _) := rr in
+                isd && is_some_true (fun r => res_spec_ok g ifs rr r && nodupb r && same_set r (x :: a)) it)
+          (c_bare c) its
   && all2 (fun '(d, r, p) '(d', r', p') => obs_eqb d d' && Bool.eqb r r' && obs_eqb p p')
           (c_inst c) (sp_inst g ifs (c_cls c) (c_ops c))
   && (let lv := fst (fold_left (sp_inst_step g ifs (c_cls c)) (c_ops c) ([], [])) in
